@@ -163,7 +163,7 @@ class Pipeline:
                     f"if v & {1 << op.arg} == 0 {{ Some(v ^ 0x10) }} else {{ None }} }}")
         if op.kind == "flat_map":
             return (f"move |x: {KT[kind]}| {{ {pr}let v: u8 = {v}; {bump}"
-                    f"[v, v ^ 8].into_iter().take(((v >> {op.arg}) as usize).min(2)) }}")
+                    f"[v, v ^ 0x80].into_iter().take(((v >> {op.arg}) as usize).min(2)) }}")
         raise ValueError(op.kind)
 
     def chain(self, head, param_at=None, params="", probes=False):
@@ -268,8 +268,8 @@ class TaggedPipeline:
             if probes and first:
                 pr = "probe_ref!(x as *const (usize, u8) as *const u8); " if ref else "probe_val!(); "
             seen_fl = "flat_map" in self.ops[:si]
-            bt = "(t / 4) as u8" if seen_fl else "t as u8"
-            bx = "(x.0 / 4) as u8" if seen_fl else "x.0 as u8"
+            bt = "(t / 8) as u8" if seen_fl else "t as u8"
+            bx = "(x.0 / 8) as u8" if seen_fl else "x.0 as u8"
             bump = f" bump({si}, {bt});" if self.count_calls else ""
             bumpx = f"bump({si}, {bx}); " if self.count_calls else ""
             if op == "map":
@@ -285,8 +285,9 @@ class TaggedPipeline:
                         # tags after flat_map are 4*pos + j
                         keep = []
                         for i in range(n):
-                            ks = {0: [False, False], 1: [False, True], 2: [True, True]}[c[i]]
-                            keep += ks + [False, False]
+                            # the flat_map yields min(c[i] + 1, 4) items, the filter keeps the LAST c[i] of them
+                            f = min(c[i] + 1, 4)
+                            keep += [(f - c[i]) <= j < f for j in range(4)] + [False] * 4
                         out.append(("filter", f"move |x: &(usize, u8)| {{ {bumpx}{self.table(keep)}[x.0] }}"))
                     else:
                         keep = self.keep_table(si, filt_stages, per_output=False)
@@ -297,8 +298,8 @@ class TaggedPipeline:
                 first = False
             elif op == "flat_map":
                 last = si == len(self.ops) - 1
-                fan = c if last else [2] * n
-                out.append(("flat_map", f"move |x: {arg_t}| {{ {pr}{get}{bump} [(4 * t, v), (4 * t + 1, v ^ 8)].into_iter().take({self.table(fan)}[t]) }}"))
+                fan = c if last else [min(x + 1, 4) for x in c]
+                out.append(("flat_map", f"move |x: {arg_t}| {{ {pr}{get}{bump} [(8 * t, v), (8 * t + 1, v ^ 8), (8 * t + 2, v ^ 16), (8 * t + 3, v ^ 24)].into_iter().take({self.table(fan)}[t]) }}"))
                 first = False
         return out
 
